@@ -57,6 +57,7 @@ func runC19(c *Check, a *Analysis) {
 	p := c.P
 	sc := siteCounter{}
 	rulePendingKeys(c, a, "R-PENDING-KEYS")
+	ruleRecycleClean(c, a, "R-RECYCLE-CLEAN")
 	ruleMarkDeadExact(c, a, "R-MARK-DEAD-EXACT")
 	fn := p.Fn("(*Conn).CallWithContext")
 	c.Rule("R-CTX-SELECT", "Conn.CallWithContext waits only in a select over call.Done and ctx.Done(); the cancel arm returns ctx.Err() and neither completes, recycles nor unregisters anything; PutCall is on the completion arm only", 4)
@@ -723,6 +724,7 @@ func runC12(c *Check, a *Analysis) {
 	ruleHeaderFresh(c, a, "R-HEADER-FRESH")
 	ruleCodeThresholds(c, a, "R-CODE-THRESHOLD")
 	ruleResolveTotal(c, a, "R-RESOLVE-TOTAL")
+	rulePoolOwnBuffers(c, a, "R-POOL-OWN-BUFFERS")
 	c.Rule("R-RESOLVE-AGREE", "DialWithOptions and ListenWithOptions resolve socket / body codec / header encoder identically: registry looked up by the Options name field first, the constructor field used only when the registry has no entry; results feed NewClientCodec / NewServerCodec in positions 0 and 1", 8)
 	type res struct {
 		registry, nameField, ctorField   string
